@@ -4,6 +4,7 @@ package dtls
 
 import (
 	"bytes"
+	"context"
 	"fmt"
 	"net"
 	"strings"
@@ -56,7 +57,7 @@ var vfC15Scenarios = []string{
 	"genuine", "challenge-dropped", "response-late", "response-from-third-address", "forged-response-wrong-cookie",
 	"forged-response-guess-before-challenge", "replayed-record-from-new-address", "stale-record-from-new-address",
 	"garbage-from-new-address", "two-candidates-one-answers", "genuine-then-back", "observed-writes-during-validation",
-	"altered-cid", "many-small-records-from-new-address", "response-late-with-keepalives",
+	"altered-cid", "many-small-records-from-new-address", "response-late-with-keepalives", "stale-epoch-record-from-new-address",
 }
 
 // vfInstallRRCStrip removes the return_routability_check extension from the ClientHellos generated for key.
@@ -560,6 +561,71 @@ func vfC15Run(t *testing.T, res *vfResult, c vfC15Case) {
 			w.check("after stale record from new address")
 		}
 		drain(vfAddrB) // whatever the mover answered to a challenge that should not exist
+		time.Sleep(2 * time.Second)
+		synctest.Wait()
+		w.check("after settle")
+	case "stale-epoch-record-from-new-address":
+		// DTLS 1.3: the withheld record belongs to the epoch before the mover's key update; when it arrives from the
+		// new address the observed endpoint has already read records of the next epoch. It is authentic and the
+		// highest of ITS epoch, but not the newest record: no challenge, nothing sent to that address.
+		if c.Ver != "13" {
+			res.Count("scenario_not_applicable", 1)
+
+			break
+		}
+		// the mover's KeyUpdate reaches the observed endpoint, its ACK is withheld for a moment; what the mover writes
+		// meanwhile still goes out under the old epoch, numbered above the KeyUpdate record: the highest of that epoch
+		w.mu.Lock()
+		w.forwardTo = false
+		mark := len(w.toMover)
+		w.mu.Unlock()
+		uctx, ucancel := context.WithTimeout(context.Background(), 20*time.Second)
+		done := make(chan error, 1)
+		go func() { done <- w.mov.Conn.UpdateKeys(uctx, KeyUpdateOptions{}) }()
+		synctest.Wait()
+		drain(w.home)
+		wrote := make(chan struct{})
+		go func() {
+			defer close(wrote)
+			_ = w.mov.Conn.SetWriteDeadline(time.Now().Add(5 * time.Second))
+			_, _ = w.mov.Conn.Write([]byte(fmt.Sprintf("c15-%s-%d-older-epoch", w.mov.Name, c.Idx)))
+		}()
+		synctest.Wait()
+		older := take()
+		if older != nil {
+			older.Delivered++ // held back
+		}
+		w.mu.Lock()
+		w.forwardTo = true
+		for _, e := range w.toMover[mark:] {
+			w.forwardLocked(e)
+		}
+		w.mu.Unlock()
+		synctest.Wait()
+		uerr := <-done
+		ucancel()
+		<-wrote
+		if uerr != nil {
+			res.Count("stale_epoch_update_failed", 1)
+
+			break
+		}
+		if older == nil {
+			res.Count("stale_epoch_no_record_under_old_epoch", 1)
+		}
+		write(w.mov, "newer-epoch")
+		drain(w.home)
+		if older != nil {
+			w.mu.Lock()
+			older.Delivered = 1
+			w.recv[vfAddrB] += len(older.Data)
+			w.mu.Unlock()
+			n.Deliver(w.obsAddr, older.Data, vfAddr(vfAddrB))
+			synctest.Wait()
+			w.check("after a record of the previous epoch from a new address")
+			res.Count("stale_epoch_records_from_new_address", 1)
+		}
+		drain(vfAddrB)
 		time.Sleep(2 * time.Second)
 		synctest.Wait()
 		w.check("after settle")
